@@ -1,6 +1,7 @@
 (* Model of the glue around sympy in pddl_plus_parser/models/numeric_symbolic_operations.py
-   (tree AFTER the proposed repairs D21a-D21k, D21, D21b: rounding before int(), zero factors, Rational atoms,
-   general integer powers, function names must start with a letter, injective symbol names).
+   (tree AFTER the repairs D21a-D21n, D21, D21b and D21o = 117bd92: rounding before int(), zero factors, Rational
+   atoms printed from their exact value, general integer powers, function names must start with a letter, injective
+   symbol names).
 
    sympy itself (parse_expr / simplify / expand / subs) is NOT modelled: its result arrives as a tree
    [stree] (a Gallina copy of expr.func / expr.args, numbers as exact rationals).  Modelled here:
@@ -147,8 +148,11 @@ Definition extract_atom (d : nat) (flag : bool) (m : list (string * string)) (e 
       let x := number_atom d v (sig15 v) in
       if flag && pnum_is_zero x then Ok None else Ok (Some (PNum x))
   | SRat p q =>
+      (* after D21o: round(Fraction(p * 10^d, q)) - the EXACT value rounded half to even; an integer is printed when
+         that is a multiple of 10^d, else sign, integer part, '.', d decimals: number_atom with the exact value as the
+         "text" that is formatted *)
       let v := Qmake p q in
-      let x := number_atom d v (sig15 v) in      (* Float(expression): printed like a Float *)
+      let x := number_atom d v v in
       if flag && pnum_is_zero x then Ok None else Ok (Some (PNum x))
   | SInt z => Ok (Some (PNum (pint z)))
   | SSym s => match lookup_sym m s with Some t => Ok (Some (PFl t)) | None => Err EKey end
